@@ -31,6 +31,18 @@ def run(chk):
             if "panic" in m:
                 what = "clap_lex panics (%s at %s) on %s" % (m["panic"], m.get("at"), json.dumps(m.get("rec"))[:300])
             chk.violation(what, m)
+    if not quick:
+        # unbounded side proof of the seek arithmetic (TLAPS); a proof that no longer goes through is reported in the
+        # evidence only - it speaks about the specification, the verdicts above speak about the code
+        import subprocess, shutil
+        pd = os.path.join(w, "proofs")
+        shutil.copytree(os.path.join(d.SPEC, "proofs"), pd)
+        try:
+            p = subprocess.run(["timeout", "900", "tlapm", "--threads", "8", "SeekArith.tla"], cwd=pd, capture_output=True, text=True)
+            m = [l for l in (p.stdout + p.stderr).splitlines() if "obligations" in l]
+            chk.extra["tlaps_seek_arithmetic"] = m[-1].strip() if m else "tlapm gave no summary (rc=%d)" % p.returncode
+        except Exception as e:
+            chk.extra["tlaps_seek_arithmetic"] = "not run: %s" % e
     n = 4000 if quick else 200000
     tr = os.path.join(w, "trace.ndjson")
     d.vh(["c14-record", "--seed", chk.seed, "--n", n, "--maxops", 20 if quick else 60, "--out", tr])
